@@ -694,3 +694,10 @@ def r14_7(ctx):
            if isinstance(n, (ast.Assign, ast.AugAssign)) for t in (n.targets if isinstance(n, ast.Assign) else [n.target])
            if isinstance(t, ast.Attribute) and t.attr in ("children",) or (isinstance(t, ast.Subscript) and isinstance(t.value, ast.Attribute) and t.value.attr == "children")]
     ctx.check("no function stores into the children of a parse tree", not bad, "trees are read only", "; ".join(bad[:3]) or "none", "rzilcompiler/")
+
+
+@rule("R14.8", "C14", "the output layout is configuration, read where the text is laid out and nowhere else: no entry point switches it (a switch that is not undone on every exit changes all later results)", min_instances=4)
+def r14_8(ctx):
+    from .c16 import r16_1
+
+    r16_1(ctx)
